@@ -3,7 +3,7 @@ package engine
 func init() {
 	notDecided = map[string][]string{
 		"C01": {"that frames eventually arrive (liveness)", "integrity and FIFO order of the carrier gRPC stream (assumed)", "the induction over the number of messages (composition lemma L-C01 is argued in DESIGN.md, its step case is what the send/readMsgLocked obligations discharge)", "proto.Marshal/Unmarshal round trip (assumed)"},
-		"C02": {"status/proto library round trips (assumed contracts)", "content equality of metadata maps through toProto/fromProto (only source/target plumbing and non-nil-ness are proved; the pointwise map equality of DESIGN 6/C02 is not mechanised)", "non-UTF-8 metadata values (wire-format limitation, not claimed)", "timing of delivery"},
+		"C02": {"status/proto library round trips (assumed contracts)", "non-UTF-8 metadata values (wire-format limitation, not claimed)", "timing of delivery"},
 		"C03": {"'never indefinitely delays' as liveness", "bounded hold time of writeMu when a handler blocks in Send (argued, not proved)", "unmarshalable frames on the carrier"},
 		"C04": {"that blocked operations do return (they become enabled; fairness not modelled)", "that the carrier reports its own failure", "handler cooperation after its context is cancelled"},
 		"C05": {"deadlock freedom of a whole tunnel under bounded transport buffering (needs a carrier model and fairness)", "the interleaving invariant I2 is proved over an action schema whose shared accesses, successor relation and guards are checked against the SSA / proved by the executor; the effect of each access kind on (window, tokens) is the schema (trusted encoding of sync/atomic and channel semantics)", "the liveness reading (a waiting sender does resume) needs fairness"},
